@@ -92,7 +92,8 @@ class TypeDef:
         self.desc = ""
 
     def source(self, inner_samples):
-        lines = ["#[derive(Serialize, Deserialize, JsonSchema, PartialEq, Debug, Clone)]"]
+        lines = list(getattr(self, "extra_items", []))
+        lines.append("#[derive(Serialize, Deserialize, JsonSchema, PartialEq, Debug, Clone)]")
         cattrs = list(self.attrs)
         if self.kind == "enum" and TAGGINGS[self.tagging]:
             lines.append(TAGGINGS[self.tagging])
@@ -251,6 +252,17 @@ def universes(tier):
                     if any(k == "struct" for k in ks):
                         t4 = TypeDef(nm(), "enum", variants=[dict(v) for v in vs], tagging=tagging, attrs=["deny_unknown_fields"])
                         add(t4, desc="enum:%s[%s]{deny}" % (tagging, ",".join(ks)))
+    # custom default functions (#[serde(default = "f")]): field type x {zero-like, non-zero} value; schemars writes f()'s value as `default`
+    cdf = [("i32", "0i32", "8i32"), ("String", "String::new()", '"d".to_string()'), ("bool", "false", "true"),
+           (("opt", "i32"), "Some(0i32)", "Some(8i32)"), (("opt", "String"), "Some(String::new())", 'Some("x".to_string())'),
+           (("opt", "bool"), "Some(false)", "Some(true)"), (("vec", "u8"), "vec![]", "vec![1u8]"), (("opt", ("vec", "u8")), "Some(vec![])", "Some(vec![1u8])")]
+    for (ft, zero, nonzero) in cdf:
+        for cls, val in (("zero", zero), ("nonzero", nonzero)):
+            name = nm()
+            fn = "dflt_%s" % name.lower()
+            t = TypeDef(name, "struct", [{"name": "with_default", "ty": ft, "attrs": ['default = "%s"' % fn]}, {"name": "other", "ty": "i32"}])
+            t.extra_items = ["pub fn %s() -> %s { %s }" % (fn, rust_ty(ft), val)]
+            add(t, desc="struct{default fn -> %s (%s) : %s}" % (val, cls, rust_ty(ft)))
     # self-referential root types: schemars puts the root type into `definitions` as well, under the root's own title
     def selfref(name, kind):
         if kind == "opt_box":
